@@ -33,6 +33,8 @@ type C16Params struct {
 
 var c16LineFaults = map[string]string{
 	"missing-include":    "##!> include nosuchfile",
+	"missing-exclude":    "##!> include-except inc1 nosuchexclude",
+	"missing-exclude-after-all-excluded": "##!> include-except onlyone ex-all nosuchexclude",
 	"unparsable-entry":   "a(b[",
 	"unparsable-prefix":  "##!^ [z-a]",
 	"unparsable-suffix":  "##!$ x{2,1}",
@@ -148,6 +150,8 @@ func genC16(t *rapid.T, tier string) (*World, any) {
 	w.Put("crs/regex-assembly/include/inc1.ra", joinLines(drawWordList(t, 1, 4, "inc1", []string{"s", "es"})))
 	w.Put("crs/regex-assembly/include/inc2.ra", "##!^ p\nqq\nrr\n")
 	w.Put("crs/regex-assembly/include/withflags.ra", "plain\n")
+	w.Put("crs/regex-assembly/include/onlyone.ra", "word\n")
+	w.Put("crs/regex-assembly/exclude/ex-all.ra", "word\n")
 	opts := ProgOpts{Flags: true, PrefixSufx: true, Blocks: true, Cmdline: true, Defs: true, Includes: []string{"inc1", "inc2"}, Pairs: true, Comments: true, MaxLines: 6}
 	targets := []string{"942100-chain1", "942100", "942110", "942120"} // walk order
 	secRuleLine := map[string]int{}
@@ -497,6 +501,10 @@ func evalC16(sc *Scenario, sim *Sim) ([]Violation, bool, string) {
 			}
 			if strings.Join(a, "\n") != strings.Join(b, "\n") {
 				add("exit0-content-lost", "format exited 0 on a faulty file and changed more than white space", fmt.Sprintf("before: %q\nafter: %q", b, a))
+			}
+			// a formatted file always starts with the standard header
+			if !bytes.HasPrefix(tgtAfter, []byte(raHeader)) {
+				add("exit0-but-not-formatted", fmt.Sprintf("`%s` exited 0 but the faulty file does not even carry the standard header afterwards: it was not formatted", strings.Join(p.Argv, " ")), fmt.Sprintf("file: %q", clip(tgtAfter)))
 			}
 			// exit 0 means the requested output was completely written: the faulty file itself must now be formatted,
 			// i.e. formatting it on its own succeeds and changes nothing
